@@ -33,7 +33,7 @@ def _run(run, mons, extra_phases=()):
     phases = phases_for(run.tier) + list(extra_phases)
     hashes, viol, counts, samples, outcomes, names, bounds, per = set(), [], {}, [], set(), [], [], []
     for atoms, levels, nested in phases:
-        res = explore.run([dsl.atom(e, l) for e, l in atoms], levels, mons, nested_tail=nested)
+        res = explore.run(dsl.safe_atoms(atoms, run), levels, mons, nested_tail=nested)
         hashes |= res['hashes']
         viol.extend(res['violations'])
         for k, v in res['counts'].items():
@@ -243,7 +243,7 @@ def run_C08(run):
     depth = 4 if run.tier == 'quick' else 5
     levels = [L(gq + opt, cat[:1] if i else cat, partners, (0, 1), f'depth {i + 1}: capture()/capture(x)/capture(y)/group()/group(True)/optional, concat with b, (c), (?P<z>c)')
               for i in range(depth)]
-    res = explore.run([dsl.atom(e, l) for e, l in atoms], levels, [monitors.C08()], nested_tail=(run.tier != 'quick'))
+    res = explore.run(dsl.safe_atoms(atoms, run), levels, [monitors.C08()], nested_tail=(run.tier != 'quick'))
     run.add(res['violations'])
     run.merge_counts(res['counts'])
     cov = {
